@@ -71,9 +71,9 @@ func runModGraph(args []*Sexp) *Sexp {
 			return inv.Invoke()
 		}}
 	}
-	g1 := ugo.Map{"log": ugo.Array{}, "apply": mkApply(false), "applyp": mkApply(true)}
+	g1 := ugo.Map{"log": ugo.Array{}, "apply": mkApply(false), "applyp": mkApply(true), "g": ugo.Map{}}
 	r1 := runBytecode(bc, g1)
-	g2 := ugo.Map{"log": ugo.Array{}, "apply": mkApply(false), "applyp": mkApply(true)}
+	g2 := ugo.Map{"log": ugo.Array{}, "apply": mkApply(false), "applyp": mkApply(true), "g": ugo.Map{}}
 	r2 := runBytecode(bc, g2)
 	return L(A("modgraph"), r1, SexpOfValue(g1["log"]), r2, SexpOfValue(g2["log"]), pairs, A(fmt.Sprint(bc.NumModules)))
 }
